@@ -41,7 +41,7 @@ def values_at(axis, level, n):
         mls = [[['Oxidation', 1]], [['10', 1]]]
         return [[{'mods': ml, 'targets': t}] for ml in mls for t in c01.TARGETS]
     if axis == 'isotope':
-        return [['13C'], ['15N'], ['13C', '15N']]
+        return [['13C'], ['15N'], ['13C', '15N'], ['18O'], ['D'], ['18O', '13C']]
     if axis == 'iv':
         mls = [[['Oxidation', 1]], [['1.5', 2]], None]
         return [[[a, b, amb, ml]] for (a, b) in ((0, 2), (1, n)) for amb in (False, True) for ml in mls
@@ -154,4 +154,21 @@ def _neutral_mass(p, s):
     return p.mass(a)
 
 
-CLASSIFIERS = {}
+def _d18_label(case, f):
+    """labels on O or H: every one-residue segment is weighed with its own terminal water, so the label shift of the
+    water is written once per residue instead of once: output - input = (n-1) * shift(H2O)"""
+    from mc import refdata
+    if f['clause'] != 'mass-changed' or not f.get('labels'):
+        return False
+    shift = 0.0
+    for lab in f['labels']:
+        el = {'18O': 'O', '17O': 'O', 'D': 'H', 'T': 'H', '2H': 'H'}.get(lab)
+        if el:
+            shift += (refdata.ISO[lab] - refdata.MONO[el]) * (2 if el == 'H' else 1)
+    if shift == 0.0:
+        return False
+    n = len(case['seq'])
+    return abs(f['deviation'] - (n - 1) * shift) <= f['budget'] + 1e-6
+
+
+CLASSIFIERS = {'D18-label': _d18_label}
